@@ -65,7 +65,7 @@ def setup(it, st, T, c, exists, sidecar):
     dp = it.to_str(it.call(it.resolve(it.module('spil.conf').ns['get_data_json_path']), [p], {}))
     k0, v0, k1, v1 = (st.fresh_str(h, nonempty=True) for h in ('dk0_', 'dv0_', 'dk1_', 'dv1_'))
     st.assume(st.norm(k0).z() != st.norm(k1).z())
-    for k in (k0, k1): st.assume(st.norm(k).z() != z3.StringVal('sid'))
+    st.assume(st.norm(k1).z() != z3.StringVal('sid'))          # k0 may be 'sid' itself: the read still carries the entry of the Sid that is read
     D0 = PDict([(k0, v0), (k1, v1)])
     isfile = it.is_true(it.getattr(p, 'suffix'), 'spec:has-suffix')
     nanc = st.pick(3, 'existing-ancestors')       # how much of the ancestor chain exists: all / only the root part / none below the configured root
@@ -95,7 +95,7 @@ def run(it, st, case):
     fs, x, p, ps, dp, D0, W_, wp = setup(it, st, T, c, st0, extra if kind != 'create' else ('doc' if st0.endswith('+doc') else 'absent'))
     uri = it.to_str(x)
     SpilEx = it.resolve(Lazy('spil.util.exception', 'SpilException'))
-    wk, wv = st.fresh_str('wk_', nonempty=True), st.fresh_str('wv_', nonempty=True); st.assume(st.norm(wk).z() != z3.StringVal('sid'))
+    wk, wv = st.fresh_str('wk_', nonempty=True), st.fresh_str('wv_', nonempty=True)          # the written key may be 'sid' too
     data = PDict([(wk, wv)])
     if ps is not None: fs.state(ps); fs.state(dp)
     before = fs.snapshot(); fs.trace = []
